@@ -1,7 +1,7 @@
 (* Command interpreter shared by the extracted binary and by in-Coq evaluation:
    one s-expression command per line in, one s-expression answer out. *)
 From Coq Require Import String Ascii List ZArith NArith Bool.
-From OL Require Import Sexp PyAst Unparse Config Namespace Lower Cli StrLit.
+From OL Require Import Sexp PyAst Unparse Config Namespace Lower Cli StrLit KSem.
 Import ListNotations.
 Open Scope string_scope.
 
@@ -46,9 +46,34 @@ Definition run_cmd (x : sexp) : sexp :=
       | Some q', Some t' => match fdecode q' t' with Some r => ok (sx_cps r) | None => L [A "none"] end
       | _, _ => bad "decode-args"
       end
+  | L [A "ksem-src"; L bits; A fn; L b] =>
+      match mapM bool_of bits, mapM sk_of b with
+      | Some bits', Some b' =>
+          let fuel := 100 * 100 in
+          if String.eqb fn "function" then
+            match exec_function (orc_of bits') fuel b' with
+            | Some s => ok (L (map sx_event (rev (x_tr s))))
+            | None => L [A "stuck"]
+            end
+          else
+            match exec (orc_of bits') fuel (XBlock b') (mkSst [] 0) with
+            | Some (ONormal, s) => ok (L (map sx_event (rev (x_tr s))))
+            | _ => L [A "stuck"]
+            end
+      | _, _ => bad "decode-ksem"
+      end
+  | L [A "ksem-tgt"; L bits; e] =>
+      match mapM bool_of bits, expr_of e with
+      | Some bits', Some e' =>
+          match KSem.run (orc_of bits') (200 * 100) (MExpr e') (mkSt [] [] 0) with
+          | Some (_, s) => ok (L (map sx_event (rev (s_tr s))))
+          | None => L [A "stuck"]
+          end
+      | _, _ => bad "decode-ksem"
+      end
   | L [A "cfg-hist"; L acts] =>
       match mapM action_of acts with
-      | Some h => ok (L [L (map sx_output (run [] h)); L (map sx_output (run_shared (0, []) h))])
+      | Some h => ok (L [L (map sx_output (Config.run [] h)); L (map sx_output (run_shared (0, []) h))])
       | None => bad "decode-history"
       end
   | _ => bad "unknown-command"
